@@ -289,7 +289,17 @@ func tblsCase(x *hx.Ctx, sig string, t, n int, pattern []string) {
 			sigs = append(sigs, []byte{})
 		}
 	}
+	sigsBefore := make([][]byte, len(sigs))
+	for i := range sigs {
+		sigsBefore[i] = append([]byte{}, sigs[i]...)
+	}
+	msgBefore := append([]byte{}, msg...)
 	rec, err := sch.Recover(pub, msg, sigs, uint32(t), uint32(n))
+	same := len(sigs) == len(sigsBefore) && bytes.Equal(msg, msgBefore)
+	for i := 0; same && i < len(sigs); i++ {
+		same = bytes.Equal(sigs[i], sigsBefore[i])
+	}
+	x.Require("Recover leaves the caller's partial signatures and message unchanged", same)
 	if len(valid) >= t {
 		if x.NoErr("Recover", err) {
 			x.NoErr("VerifyRecovered", sch.VerifyRecovered(pub.Commit(), msg, rec))
